@@ -20,7 +20,7 @@ SSig1(x, w) == IF w = 32 THEN X3(RotR(x, 17, 32), RotR(x, 19, 32), Shr(x, 10))
 Add4(a, b, c, d, w) == LowBits(Add(Add(a, b), Add(c, d)), w)
 Add5(a, b, c, d, e, w) == LowBits(Add(Add(Add(a, b), Add(c, d)), e), w)
 
-K(w) == IF w = 32 THEN SHA_K256 ELSE SHA_K512
+ShaK(w) == IF w = 32 THEN SHA_K256 ELSE SHA_K512
 NRounds(w) == IF w = 32 THEN 64 ELSE 80
 BlockLen(w) == IF w = 32 THEN 64 ELSE 128
 
@@ -35,7 +35,7 @@ Schedule(W, w) ==
 RECURSIVE Rounds(_, _, _, _)
 Rounds(v, W, t, w) ==
     IF t > NRounds(w) THEN v
-    ELSE LET T1 == Add5(v[8], BSig1(v[5], w), Ch(v[5], v[6], v[7], w), K(w)[t], W[t], w)
+    ELSE LET T1 == Add5(v[8], BSig1(v[5], w), Ch(v[5], v[6], v[7], w), ShaK(w)[t], W[t], w)
              T2 == AddW(BSig0(v[1], w), Maj(v[1], v[2], v[3]), w)
          IN Rounds(<<AddW(T1, T2, w), v[1], v[2], v[3], AddW(v[4], T1, w), v[5], v[6], v[7]>>,
                    W, t + 1, w)
@@ -49,36 +49,36 @@ Compress(H, block, w) ==
     IN Tup([i \in 1..8 |-> AddW(H[i], v[i], w)])
 
 \* padding: 0x80, zeros, message bit length on 8 (w=32) or 16 (w=64) bytes, big-endian
-Pad(msg, w) ==
+ShaPad(msg, w) ==
     LET bl == BlockLen(w)
         ll == bl \div 8
         z  == (2 * bl - ((Len(msg) + 1 + ll) % bl)) % bl
     IN msg \o <<128>> \o [i \in 1..z |-> 0] \o ToBytesBE(Mul(FromInt(Len(msg)), <<8>>), ll)
 
-RECURSIVE Absorb(_, _, _, _)
-Absorb(H, padded, i, w) ==
+RECURSIVE ShaAbsorb(_, _, _, _)
+ShaAbsorb(H, padded, i, w) ==
     IF i > Len(padded) THEN H
-    ELSE Absorb(Compress(H, SubSeq(padded, i, i + BlockLen(w) - 1), w), padded, i + BlockLen(w), w)
+    ELSE ShaAbsorb(Compress(H, SubSeq(padded, i, i + BlockLen(w) - 1), w), padded, i + BlockLen(w), w)
 
 \* concatenation of the big-endian words, truncated to outlen bytes
 RECURSIVE CatBE(_, _, _)
 CatBE(H, i, n) == IF i > Len(H) THEN <<>> ELSE ToBytesBE(H[i], n) \o CatBE(H, i + 1, n)
-Hash(msg, iv, w, outlen) == SubSeq(CatBE(Absorb(iv, Pad(msg, w), 1, w), 1, w \div 8), 1, outlen)
+ShaHash(msg, iv, w, outlen) == SubSeq(CatBE(ShaAbsorb(iv, ShaPad(msg, w), 1, w), 1, w \div 8), 1, outlen)
 
 \* FIPS 180-4 section 5.3.6: IV generation function of SHA-512/t
 A5 == [i \in 1..8 |-> 165]
 Sha512tIV(name) ==
-    Absorb(Tup([i \in 1..8 |-> BitXor(SHA_IV512[i], FromBytesLE(A5))]), Pad(name, 64), 1, 64)
+    ShaAbsorb(Tup([i \in 1..8 |-> BitXor(SHA_IV512[i], FromBytesLE(A5))]), ShaPad(name, 64), 1, 64)
 \* "SHA-512/224", "SHA-512/256" in ASCII
 Name512_224 == <<83, 72, 65, 45, 53, 49, 50, 47, 50, 50, 52>>
 Name512_256 == <<83, 72, 65, 45, 53, 49, 50, 47, 50, 53, 54>>
 IV512_224 == Sha512tIV(Name512_224)
 IV512_256 == Sha512tIV(Name512_256)
 
-SHA224(m) == Hash(m, SHA_IV224, 32, 28)
-SHA256(m) == Hash(m, SHA_IV256, 32, 32)
-SHA384(m) == Hash(m, SHA_IV384, 64, 48)
-SHA512(m) == Hash(m, SHA_IV512, 64, 64)
-SHA512_224(m) == Hash(m, IV512_224, 64, 28)
-SHA512_256(m) == Hash(m, IV512_256, 64, 32)
+SHA224(m) == ShaHash(m, SHA_IV224, 32, 28)
+SHA256(m) == ShaHash(m, SHA_IV256, 32, 32)
+SHA384(m) == ShaHash(m, SHA_IV384, 64, 48)
+SHA512(m) == ShaHash(m, SHA_IV512, 64, 64)
+SHA512_224(m) == ShaHash(m, IV512_224, 64, 28)
+SHA512_256(m) == ShaHash(m, IV512_256, 64, 32)
 =============================================================================
